@@ -9,6 +9,25 @@ KNOWN_TEXT = ("merge_mixed_unsafety: --merge-extern-blocks merges blocks that di
               "every such case equals the model's prediction")
 
 
+def name_obligations(prop_file, text):
+    """Replace `Props/Cxx.lean:LINE:` references by the enclosing theorem names."""
+    import re
+    try:
+        lines = open(os.path.join(common.LEAN, "BindgenModel", "Props", prop_file)).read().splitlines()
+    except OSError:
+        return text
+    names = []
+    for m in re.finditer(re.escape(prop_file) + r":(\d+):", text):
+        n = int(m.group(1))
+        for i in range(min(n, len(lines)) - 1, -1, -1):
+            mm = re.match(r"(?:theorem|example|def)\s+(\w+)", lines[i])
+            if mm:
+                if mm.group(1) not in names:
+                    names.append(mm.group(1))
+                break
+    return ("broken: " + ", ".join(names) + " -- " + text) if names else text
+
+
 def run(res):
     work = tempfile.mkdtemp(prefix="bgverif_c18_")
     try:
@@ -24,7 +43,7 @@ def _run(res, work):
         pending.append(("translator", "Generated/PostTables.lean can no longer be extracted from codegen/postprocessing/*.rs", tlog[-3000:]))
     lean = common.lean_obligations("C18", res.tier)
     for f in lean["failures"]:
-        pending.append(("proof-obligation", f, lean["log"][-3000:]))
+        pending.append(("proof-obligation", name_obligations("C18.lean", f), lean["log"][-3000:]))
     model_ok = os.path.exists(common.bgmodel_path()) and not any("lake build failed" in f for f in lean["failures"])
     ok, blog = common.cargo_build_harness(["c18"])
     if not ok:
